@@ -138,6 +138,20 @@ func (w *world) randOne(role string, store uint64, ranges []core.KeyRange, viaCl
 	}
 }
 
+func (w *world) safePick(role string, store uint64, ranges []core.KeyRange, viaCluster bool) (out string) {
+	defer func() {
+		if e := recover(); e != nil {
+			w.panicked = true
+			out = "panic"
+		}
+	}()
+	r := w.randOne(role, store, ranges, viaCluster)
+	if r == nil {
+		return "nil"
+	}
+	return strconv.FormatUint(r.GetID(), 10)
+}
+
 func (w *world) dump() string {
 	ri := w.bc.Regions
 	var sb strings.Builder
@@ -225,11 +239,13 @@ func (w *world) exec(op string) string {
 	case len(f) == 5 && f[0] == "rand":
 		ranges := parseRanges(f[3])
 		k, _ := strconv.Atoi(f[4])
-		var picks []*core.RegionInfo
-		for j := 0; j < k; j++ {
-			picks = append(picks, w.randOne(f[1], u(f[2]), ranges, j%2 == 1))
+		// a pick that panics is reported as the observation "panic" (the monitor flags it); a panic inside
+		// BasicCluster.Rand*Region leaves its read lock held, so the structure is unusable afterwards
+		var picks []string
+		for j := 0; j < k && !w.panicked; j++ {
+			picks = append(picks, w.safePick(f[1], u(f[2]), ranges, j%2 == 1))
 		}
-		return regionh.IDs(picks)
+		return strings.Join(picks, ",")
 	}
 	return "bad-op"
 }
@@ -243,6 +259,13 @@ func (w *world) run(t *trace.W, op string) (out string) {
 			t.Line(op, out)
 		}
 	}()
+	if w.panicked && !strings.HasPrefix(op, "reset") {
+		// after a panic (half-updated structure, possibly a lock left held) nothing more is executed until the
+		// next reset; a replayed sequence records that
+		out = "skipped-after-panic"
+		t.Line(op, out)
+		return out
+	}
 	out = w.exec(op)
 	t.Line(op, out)
 	return out
@@ -761,6 +784,161 @@ func (g *gen) query() {
 	g.w.run(g.t, op)
 }
 
+// bulkSequence: grow - shrink - grow on one RegionsInfo with several hundred regions, so that the main tree
+// and the per-store sub-trees (btree degree 64: at most 127 items per node) split, collapse and split again
+// (freed btree nodes are re-used).  After each phase: lookups, counters, and random picks restricted to the
+// range of single cached regions (exactly one candidate each).
+func (g *gen) bulkSequence() {
+	g.w.run(g.t, "reset")
+	g.kinds["bulk-grow-shrink-grow"]++
+	g.mode = 1
+	g.stores = g.r.Range(2, 4)
+	g.nextID, g.nextPeer = 0, 0
+	n := g.r.Range(280, 440)
+	step := 1000000 / (n + 2)
+	key := func(i int) []byte {
+		if i <= 0 {
+			return []byte{}
+		}
+		v := i * step
+		return []byte{byte(v >> 16), byte(v >> 8), byte(v)}
+	}
+	// region i covers [key(i), key(i+1)); the last one is unbounded
+	spec := func(i int, ver uint64) *rspec {
+		s := &rspec{id: uint64(i + 1), ver: ver, conf: 1, term: 1, size: g.size(), start: key(i), end: key(i + 1)}
+		if i == n-1 {
+			s.end = []byte{}
+		}
+		// every store holds a peer of every region: each leader/follower tree gets a large share
+		first := g.r.Intn(g.stores)
+		for k := 0; k < g.stores; k++ {
+			g.nextPeer++
+			st := uint64((first+k)%g.stores + 1)
+			s.peers = append(s.peers, pspec{g.nextPeer, st, k == g.stores-1 && g.stores > 2 && g.r.Bool(1, 3)})
+		}
+		if g.r.Bool(1, 3) { // one store leads everything in a third of the sequences' regions
+			s.leader = s.peers[0].id
+		} else {
+			g.pickLeader(s)
+		}
+		if g.r.Bool(1, 4) {
+			g.pickPending(s)
+		}
+		return s
+	}
+	present := map[int]bool{}
+	probe := func(phase string) {
+		g.kinds["bulk-probe-"+phase]++
+		var ids []int
+		for i := range present {
+			ids = append(ids, i)
+		}
+		sort.Ints(ids)
+		g.w.run(g.t, "len")
+		g.w.run(g.t, "total")
+		for st := 1; st <= g.stores; st++ {
+			g.w.run(g.t, fmt.Sprintf("stats %d", st))
+		}
+		for q := 0; q < 40 && len(ids) > 0 && !g.w.panicked; q++ {
+			i := ids[g.r.Intn(len(ids))]
+			rg := regionh.Key(key(i)) + ":" + regionh.Key(key(i+1))
+			if i == n-1 {
+				rg = regionh.Key(key(i)) + ":_"
+			}
+			g.w.run(g.t, fmt.Sprintf("rand %s %d %s 2", roles[g.r.Intn(4)], g.r.Range(1, g.stores), rg))
+			if g.w.panicked {
+				return
+			}
+			switch g.r.Intn(4) {
+			case 0:
+				g.w.run(g.t, "search "+regionh.Key(key(i)))
+			case 1:
+				g.w.run(g.t, "searchprev "+regionh.Key(key(i)))
+			case 2:
+				g.w.run(g.t, fmt.Sprintf("scan %s %s %d", regionh.Key(key(i)), regionh.Key(key(i+3)), 5))
+			default:
+				// a wider range: several candidates, four draws
+				j := i + g.r.Range(2, 30)
+				g.w.run(g.t, fmt.Sprintf("rand %s %d %s:%s 4", roles[g.r.Intn(4)], g.r.Range(1, g.stores),
+					regionh.Key(key(i)), regionh.Key(key(j))))
+			}
+		}
+	}
+	order := func(lo, hi int) []int { // ascending, descending or shuffled
+		var l []int
+		for i := lo; i < hi; i++ {
+			l = append(l, i)
+		}
+		switch g.r.Intn(3) {
+		case 1:
+			for a, b := 0, len(l)-1; a < b; a, b = a+1, b-1 {
+				l[a], l[b] = l[b], l[a]
+			}
+		case 2:
+			for a := len(l) - 1; a > 0; a-- {
+				b := g.r.Intn(a + 1)
+				l[a], l[b] = l[b], l[a]
+			}
+		}
+		return l
+	}
+	// grow
+	for _, i := range order(0, n) {
+		g.w.run(g.t, "put "+spec(i, 1).String())
+		present[i] = true
+		if g.w.panicked {
+			return
+		}
+	}
+	probe("grown")
+	if g.w.panicked {
+		return
+	}
+	// shrink: keep a block (or a random subset) of 20-70 regions
+	keep := map[int]bool{}
+	nk := g.r.Range(20, 70)
+	if g.r.Bool(2, 3) {
+		lo := g.r.Intn(n - nk)
+		for i := lo; i < lo+nk; i++ {
+			keep[i] = true
+		}
+	} else {
+		for len(keep) < nk {
+			keep[g.r.Intn(n)] = true
+		}
+	}
+	for _, i := range order(0, n) {
+		if keep[i] {
+			continue
+		}
+		g.w.run(g.t, fmt.Sprintf("rm %d", i+1))
+		delete(present, i)
+		if g.w.panicked {
+			return
+		}
+	}
+	probe("shrunk")
+	if g.w.panicked {
+		return
+	}
+	// grow again (same ranges, new epochs and peers)
+	for _, i := range order(0, n) {
+		if present[i] {
+			continue
+		}
+		g.w.run(g.t, "put "+spec(i, 2).String())
+		present[i] = true
+		if g.w.panicked {
+			return
+		}
+	}
+	probe("regrown")
+	if g.w.panicked {
+		return
+	}
+	g.w.run(g.t, "dump")
+}
+
 // btSequence exercises pkg/btree alone: the calls regionTree makes, at small and large degrees
 func (g *gen) btSequence(maxOps int) {
 	g.w.run(g.t, "reset")
@@ -851,6 +1029,7 @@ func main() {
 	maxOps := flag.Int("len", 120, "max mutations per sequence")
 	bad := flag.Int("malformed", 5, "one sequence in this many uses the malformed stream (0 = never)")
 	stream := flag.Uint64("stream", 0, "PRNG stream")
+	bulk := flag.Int("bulk", 0, "one sequence in this many is a grow-shrink-grow history with several hundred regions (0 = never)")
 	flag.Parse()
 
 	w := &world{}
@@ -871,6 +1050,10 @@ func main() {
 		}
 		if s%8 == 6 {
 			g.btSequence(*maxOps)
+			continue
+		}
+		if *bulk > 0 && s%*bulk == 1 {
+			g.bulkSequence()
 			continue
 		}
 		g.sequence(*maxOps)
